@@ -794,6 +794,10 @@ func (tree *MutableTree) SaveVersion() ([]byte, int64, error) {
 			return nil, version, err
 		}
 		verifYield("SaveVersion.afterFastNodes")
+	} else if err := tree.ndb.dropFastStorageVersionFromToBatch(version); err != nil {
+		// the index is not maintained by this commit: it must not end up
+		// labelled with the version committed here
+		return nil, version, err
 	}
 	// save new nodes
 	if tree.root == nil {
